@@ -480,6 +480,23 @@ def fill_values(fill, n):
     return np.asarray([(np.nan, np.inf, -np.inf)[k % 3] for k in range(n)])   # mixed; first masked sample is NaN, second +inf ...
 
 
+def modes_sharing_invalid(modes, inv, how):
+    """The same modes, but at the samples the data marks invalid they are NaN / +-inf (a basis evaluated on blanked
+    coordinates) or finite and huge; a fit that ignores exactly those samples cannot tell."""
+    m = np.array(modes, dtype=float, copy=True)
+    n = int(inv.sum())
+    if how == 'nan':
+        m[:, inv] = np.nan
+    elif how == 'inf':
+        m[:, inv] = np.asarray([(np.inf, -np.inf, np.nan)[k % 3] for k in range(n)])
+    else:
+        m[:, inv] = np.asarray([(1e150, -1e150)[k % 2] for k in range(n)])
+    return m
+
+
+MODES_AT_IGNORED = ['nan', 'inf', 'huge']
+
+
 def run_lstsq(case, seed, R):
     name, ny, nx, mask, fill = case['basis'], case['ny'], case['nx'], case['mask'], case['fill']
     modes = basis_modes(name, ny, nx)
@@ -520,6 +537,15 @@ def run_lstsq(case, seed, R):
                 arg = modes.copy() if mform == 'ndarray' else [m.copy() for m in modes]
                 got = R.call(P.lstsq, arg, data.copy(), sig=sig + ':exception')
                 R.expect_close(got, c, tol, sig, what + f' modes as {mform}')
+            if cname == 'dense' and resid == have_resid and inv.any():
+                # the modes share the data's invalid samples (NaN / inf there), or are huge there: those samples are ignored
+                for how in MODES_AT_IGNORED:
+                    for mform in ('ndarray', 'list'):
+                        mm = modes_sharing_invalid(modes, inv, how)
+                        mm = mm if mform == 'ndarray' else [m for m in mm]
+                        msig = f'lstsq:modes-at-ignored={how}'
+                        got = R.call(P.lstsq, mm, data.copy(), sig=msig + ':exception')
+                        R.expect_close(got, c, tol, msig, what + f' modes {how} at the ignored samples, as {mform}')
             if cname == 'dense' and resid == have_resid and mask['kind'] != 'sample':
                 # memory layouts of the data and of the modes (same values): the fit is a function of the values only
                 for lay in LAYOUTS[1:]:
@@ -592,6 +618,12 @@ def run_lstsq_cond(case, seed, R):
         got = R.call(P.lstsq, modes.copy(), data, sig=sig + ':exception')
         R.expect_close(got, c, KTOL * EPS * cond * float(np.linalg.norm(c)), sig,
                        f'{case} coefs {cname}: cond(design matrix)={cond:.2e}, {Bv.shape[0]} valid samples, {K} modes')
+        if cname == 'dense' and inv.any():
+            for how in MODES_AT_IGNORED:
+                msig = f'lstsq:modes-at-ignored={how}'
+                got = R.call(P.lstsq, modes_sharing_invalid(modes, inv, how), data.copy(), sig=msig + ':exception')
+                R.expect_close(got, c, KTOL * EPS * cond * float(np.linalg.norm(c)), msig,
+                               f'{case} coefs {cname}, modes {how} at the ignored samples: cond={cond:.2e}')
     R.nontrivial()
     R.outcome(f'cond~1e{decade}')
 
@@ -683,11 +715,11 @@ def plan(tier, seed):
                   f'bases Legendre(x)Legendre(y) 6 terms, XY monomials 6 terms, Zernike Noll 1..10 on grids {grids}; invalid-sample masks: none, EVERY single sample, '
                   'every single row, every single column, circular aperture, ragged edge, three-column band; invalid samples filled with NaN / +inf / -inf / a mixture; coefficient unit vectors + one '
                   'seeded dense; data = B c and B c + r (r orthogonal to the basis on exactly the valid samples, so any other sample selection changes the answer); '
-                  f'modes as array and as list; for the dense vector and every mask other than the single-sample ones additionally data / mode stack / mode list in memory layouts {LAYOUTS[1:]}; masks leaving the basis rank-deficient on the valid samples (numpy matrix_rank) are counted under outcome '
+                  f'modes as array and as list; for the dense vector and every non-empty mask the modes additionally NaN / +-inf / finite-but-1e150 at exactly the samples the data marks invalid {MODES_AT_IGNORED} (the reference fits the valid samples only); for the dense vector and every mask other than the single-sample ones additionally data / mode stack / mode list in memory layouts {LAYOUTS[1:]}; masks leaving the basis rank-deficient on the valid samples (numpy matrix_rank) are counted under outcome '
                   '"rank-deficient-skipped" and not judged', reset=reset_all),
         ScopeUnit('lstsq_conditioning', cc, run_lstsq_cond,
                   'conditioning alphabet: independent but strongly correlated modes -- monomials of total degree 2..8 on [0.5,1]^2 (cond 2e2..1e9), Zernike 1..10 on shrinking '
                   'off-centre sub-apertures (cond 1e1..2e9) and under off-centre circular NaN masks of a full grid, a near-duplicate mode x + p x^3 next to x (cond ~ 1/p, p = 1e-1..1e-10); '
-                  'with / without a ragged mask, NaN / mixed fills; dense vector + every unit vector; judged at k eps cond(design matrix) |c| with cond from numpy SVD of the valid rows; '
+                  'with / without a ragged mask, NaN / mixed fills; dense vector + every unit vector (dense also with modes NaN / inf / 1e150 at the ignored samples); judged at k eps cond(design matrix) |c| with cond from numpy SVD of the valid rows; '
                   'members with k eps cond > 1e-2 (cond > 4.5e10) are counted as "too-ill-conditioned-skipped" and not judged', reset=reset_all),
     ]
